@@ -25,7 +25,7 @@ class Broken(Exception):
 # ----------------------------------------------------------------------------- fact cache
 def tree_key(repo=REPO):
     h = hashlib.sha256()
-    h.update(b"format-3")  # bump when _parse's output changes
+    h.update(b"format-4")  # bump when _parse's output changes
     files = []
     for root, dirs, fs in os.walk(os.path.join(repo, "src")):
         dirs.sort()
@@ -127,14 +127,17 @@ def _parse(d):
     import re
     fre = re.compile(r"f:([A-Za-z_0-9]+):([^|\"\]]+)")
     aggre = re.compile(r'"agg", "(adt:[^"]+|closure:[^"]+)"')
-    fieldidx, aggidx = {}, {}
+    stre = re.compile(r'"static": "([^"]+)"')
+    fieldidx, aggidx, staticidx = {}, {}, {}
     for p, b in bodies.items():
         txt = json.dumps(b["blocks"])
+        for m in set(stre.findall(txt)):
+            staticidx.setdefault(m, []).append(p)
         for m in set(fre.findall(txt)):
             fieldidx.setdefault(m, []).append(p)
         for m in set(aggre.findall(txt)):
             aggidx.setdefault(m, []).append(p)
-    return {"bodies": bodies, "adts": adts, "impls": impls, "metas": metas, "callidx": callidx, "fieldidx": fieldidx, "aggidx": aggidx}
+    return {"bodies": bodies, "adts": adts, "impls": impls, "metas": metas, "callidx": callidx, "fieldidx": fieldidx, "aggidx": aggidx, "staticidx": staticidx}
 
 
 # ----------------------------------------------------------------------------- operands / places
@@ -607,6 +610,20 @@ class Facts:
     def fns_touching(self, field, adt):
         """functions whose MIR names field `field` of `adt` in any place"""
         return [self.fn(p) for p in self.raw["fieldidx"].get((field, adt), [])]
+
+    def statics_of(self, roots):
+        """{static path: [function paths]} referenced anywhere in the in-crate call closure of roots"""
+        clo = self.closure_of(roots)
+        fams = set()
+        for r in clo:
+            for g in self.family(r):
+                fams.add(g.path)
+        out = {}
+        for st, fns in self.raw["staticidx"].items():
+            hit = [p for p in fns if p in fams]
+            if hit:
+                out[st] = hit
+        return out
 
     def fns_building(self, agg):
         """functions containing an aggregate rvalue `adt:<path>[::Variant]` or `closure:<path>`"""
